@@ -364,8 +364,8 @@ htp_status_t htp_connp_REQ_CONNECT_PROBE_DATA(htp_connp_t *connp) {
         fprint_raw_data(stderr, "htp_connp_REQ_CONNECT_PROBE_DATA: tunnel is not HTTP", data, len);
 #endif
         connp->in_status = HTP_STREAM_TUNNEL;
-        // A fatal error on the response side is permanent.
-        if (connp->out_status != HTP_STREAM_ERROR)
+        // A fatal error or a stop on the response side is permanent.
+        if ((connp->out_status != HTP_STREAM_ERROR) && (connp->out_status != HTP_STREAM_STOP))
             connp->out_status = HTP_STREAM_TUNNEL;
     }
 
